@@ -27,3 +27,26 @@ Theorem ionq_dispatch_table_covers :
                                        end) ionq_dispatch_rows)
           (list_prod [FX; FY; FZ; FXX; FYY; FZZ; FCNOT; FH; FSWAP] [COne; CHalf; CMHalf; CQuarter; CMQuarter; COther]) = true.
 Proof. vm_compute. reflexivity. Qed.
+
+(* what the tolerance window means: the serializer's test accepts exactly the exponents within atol of t modulo 2
+   (units of 10^-10), so a special-cased gate is emitted only for exponents within 10^-8 of the class *)
+From Coq Require Import Lia.
+Theorem near_mod2_spec : forall e t : Z,
+  near_mod2 e t = true <-> exists k : Z, (Z.abs (e - t - 2 * EUNIT * k) <= ATOL)%Z.
+Proof.
+  intros e t. unfold near_mod2. rewrite Z.leb_le.
+  assert (P : (0 < 2 * EUNIT)%Z) by (unfold EUNIT; lia).
+  pose proof (Z.div_mod (e - t + EUNIT) (2 * EUNIT) ltac:(lia)) as D.
+  pose proof (Z.mod_pos_bound (e - t + EUNIT) (2 * EUNIT) P) as B.
+  set (m := ((e - t + EUNIT) mod (2 * EUNIT))%Z) in *. set (q := ((e - t + EUNIT) / (2 * EUNIT))%Z) in *.
+  split.
+  - intros H. exists q. replace (e - t - 2 * EUNIT * q)%Z with (m - EUNIT)%Z by lia. exact H.
+  - intros [k H].
+    (* e - t = 2U k + d with |d| <= ATOL < U: then m - U = d *)
+    assert (A : (ATOL < EUNIT)%Z) by (unfold ATOL, EUNIT; lia).
+    set (d := (e - t - 2 * EUNIT * k)%Z) in *.
+    assert (E : (m = d + EUNIT)%Z).
+    { unfold m. replace (e - t + EUNIT)%Z with ((d + EUNIT) + k * (2 * EUNIT))%Z by (unfold d; lia).
+      rewrite Z.mod_add by lia. apply Z.mod_small. lia. }
+    rewrite E. replace (d + EUNIT - EUNIT)%Z with d by lia. exact H.
+Qed.
